@@ -12,6 +12,7 @@ import (
 
 	"github.com/mit-pdos/go-nfsd/fh"
 	"github.com/mit-pdos/go-nfsd/nfstypes"
+	"github.com/zeldovich/go-rpcgen/xdr"
 )
 
 func within(t *testing.T, d time.Duration, what string, f func()) {
@@ -294,5 +295,28 @@ func TestZZFixedD18WriteVerifier(t *testing.T) {
 	w2 := c2.WriteOp(f2, 0, []byte("data"), nfstypes.UNSTABLE)
 	if w2.Resok.Verf == v1 {
 		t.Fatalf("two server instances use the same write verifier %v", v1)
+	}
+}
+
+// D-37: a CREATE request whose createhow3 discriminant is not a declared
+// createmode3 value (RFC 1813: UNCHECKED=0, GUARDED=1, EXCLUSIVE=2) is malformed;
+// the decoder must reject it instead of handing the handler a half-decoded value.
+func TestZZFixedD37CreatehowBadMode(t *testing.T) {
+	args := nfstypes.CREATE3args{Where: nfstypes.Diropargs3{Dir: fh.MkRootFh3(), Name: "f"}}
+	args.How.Mode = nfstypes.UNCHECKED
+	buf, err := xdr.EncodeBuf(&args)
+	if err != nil {
+		t.Fatal(err)
+	}
+	// the discriminant is the word after diropargs3: handle (4+16), name (4+4)
+	off := 4 + 16 + 4 + 4
+	if buf[off+3] != 0 {
+		t.Fatalf("unexpected layout %x", buf)
+	}
+	buf = append([]byte{}, buf[:off+4]...)
+	buf[off+3] = 7 // no such createmode3; nothing follows
+	var in nfstypes.CREATE3args
+	if err := xdr.DecodeBuf(buf, &in); err == nil {
+		t.Fatalf("CREATE3args with createmode3 = 7 decoded without error: mode=%d", in.How.Mode)
 	}
 }
